@@ -10,7 +10,9 @@ import (
 // App.Close was running (every closer parks inside its Close until the scheduler releases it).
 func (w *World) CheckClose(o *Obs) []Violation {
 	var vs []Violation
-	if !o.OK() && !(o.Stuck && len(o.CloseSnaps) != 0) {
+	// (a start that failed because a runner returned an error is shut down like a successful
+	// one: the container was ready; the harness calls Close then, and only then)
+	if !o.OK() && !(o.Stuck && len(o.CloseSnaps) != 0) && !(o.RunErr && o.Panic == "" && !o.OverSteps) {
 		return nil
 	}
 	var closers []string
